@@ -68,6 +68,8 @@ func (s *rapidSource) Next(r *Run) (SOp, bool) {
 		return SOp{K: "reserve", S: s.seat(r)}, true
 	case k < 14:
 		return SOp{K: "leave", S: s.seat(r)}, true
+	case k == 15 && rapid.IntRange(0, 9).Draw(rt, "reset") == 0:
+		return SOp{K: "reset"}, true
 	case k == 14 && rapid.IntRange(0, 5).Draw(rt, "restore") == 0:
 		return SOp{K: "restore", S: rapid.IntRange(0, r.Max-1).Draw(rt, "sibling")}, true
 	}
